@@ -7,10 +7,11 @@ fail=0
 for d in /verif/seeded/*/; do
   n=$(basename $d); p=$(python3 -c "import json;print(json.load(open('$d/meta.json'))['breaks_property'])")
   git -C /repo apply $d/patch.diff || { echo "$n: patch does not apply"; fail=1; continue; }
-  t0=$(date +%s); out=$(./check $p ${VERIF_TIER:+--tier $VERIF_TIER} 2>&1); code=$?; t1=$(date +%s)
+  tier=$(python3 -c "import json;print(json.load(open('$d/meta.json')).get('tier','quick'))")
+  t0=$(date +%s); out=$(./check $p --tier ${VERIF_TIER:-$tier} 2>&1); code=$?; t1=$(date +%s)
   git -C /repo checkout -- .
   nv=$(echo "$out" | grep -c "^VIOLATION property=$p")
-  echo "$n property=$p exit=$code violations=$nv seconds=$((t1-t0))"
+  echo "$n property=$p tier=${VERIF_TIER:-$tier} exit=$code violations=$nv seconds=$((t1-t0))"
   [ $code -ne 1 ] && fail=1
 done
 exit $fail
